@@ -15,6 +15,14 @@
 (*              next identity number)                                      *)
 (*   Sound      got = cfg : the cell's monitor behaves as configured for   *)
 (*              this cell                                                  *)
+(*   OverrideEq a "state" event carries two descriptions of what a cell    *)
+(*              is trained with (auxiliary state: every hyperparameter as  *)
+(*              stored, tensor keyword arguments; every monitor's tags and *)
+(*              configuration): one of a trainer CONSTRUCTED with the      *)
+(*              hyperparameters, one of a trainer constructed with other   *)
+(*              defaults and given them as register_cell overrides; they   *)
+(*              must be equal ("constructor arguments are hyperparameters  *)
+(*              and can be overridden on a cell-by-cell basis")            *)
 (* After every event the state invariants of PoolTagsCore are evaluated    *)
 (* (SameBasis, Private, Thrifty, WellFormed).                              *)
 (***************************************************************************)
@@ -45,6 +53,7 @@ StateOK(t, s) ==
 
 Failed(t, s, e) ==
   IF e.a = "del" THEN {}
+  ELSE IF e.a = "state" THEN (IF e.ctor # e.over THEN {"OverrideEq"} ELSE {})
   ELSE (IF Allowed(s, e) = {} THEN {"AliasRule"} ELSE {})
        \cup (IF e.got # e.cfg THEN {"Sound"} ELSE {})
        \cup (IF Allowed(s, e) # {} /\ \E o \in Allowed(s, e) : ~StateOK(t, o.st) THEN {"StateInv"} ELSE {})
@@ -56,6 +65,7 @@ Adopt(s, e) ==
 
 After(s, e) ==
   IF e.a = "del" THEN MDelCell(s, e.cell)
+  ELSE IF e.a = "state" THEN s
   ELSE IF Allowed(s, e) # {} THEN (CHOOSE o \in Allowed(s, e) : TRUE).st ELSE Adopt(s, e)
 
 Init == /\ tid \in 1..NT
